@@ -6,8 +6,10 @@ pub trait DiagnosticFormatExt {
 
 impl DiagnosticFormatExt for Diagnostic {
     fn format_with_line_index(&self, index: &line_index::LineIndex) -> String {
-        if let Some(range) = self.range() {
-            let line_col = index.line_col(range.start());
+        if let Some(line_col) = self
+            .range()
+            .and_then(|range| index.try_line_col(range.start()))
+        {
             format!(
                 "{}:{}: {}",
                 line_col.line + 1,
